@@ -16,7 +16,9 @@
 
 enum { RAX, RCX, RDX, RBX, RSP, RBP, RSI, RDI, R8, R9, R10, R11, R12, R13, R14, R15, NREG };
 
-#define GM_STK 16            /* model stack slots (8 bytes each) */
+#ifndef GM_STK
+#define GM_STK 16            /* model stack slots (8 bytes each); plain jobs with a large frame raise it with -DGM_STK=n */
+#endif
 #define GM_RZ 32             /* red zone bytes below rsp that the model tracks */
 #define GM_DM 256            /* data memory bytes */
 #define GM_DM_BASE 0x10000UL /* address of dm[0] */
@@ -516,6 +518,7 @@ static inline void gm_exec(const GLine *L, const char *s, int n) {
       v = (uint64_t)o1.val & gm_mask(size);
     } else v = gm_read(&o1, size);
     if (o1.kind == O_REG && o1.reg == RSP) v = gm_rsp_value();
+    if (o1.kind == O_REG && o1.reg == RBP && size == 8) v = GM_RBP;      /* the frame pointer's value is the model's frame address */
     gm_write(&o2, size, v);
     return;
   }
